@@ -40,6 +40,12 @@ func init() {
 var spoolFuncs = []string{"storeNewMessage", "updateMetadataOnDisk", "removeFromDisk", "readDiskQueue",
 	"openMessage", "readMessageMeta", "tryRemoveDanglingFile", "discardBroken"}
 
+// control flow around them: which procedure is called where, and when the time wheel gets the slot
+// ("Queue.tryDelivery" etc.: receiver type, method)
+var spoolCallers = [][2]string{{"Queue", "tryDelivery"}, {"queueDelivery", "Body"}, {"queueDelivery", "Abort"}, {"queueDelivery", "Commit"}}
+
+var spoolCallTargets = []string{"deliver", "emitDSN"}
+
 type spoolCall struct {
 	kind, arg string
 	e, w      bool
@@ -151,11 +157,22 @@ func (sw *spoolWalker) call(c *ast.CallExpr, e, w bool) (osCreateSuffix string) 
 		sw.call(inner, e, w)
 		return ""
 	}
+	name := sel.Sel.Name
+	if inner, ok := sel.X.(*ast.SelectorExpr); ok {
+		// qd.q.storeNewMessage(…), q.wheel.Add(…), qd.q.wheel.Add(…)
+		if name == "Add" && inner.Sel.Name == "wheel" {
+			sw.out = append(sw.out, spoolCall{"WheelAdd", "", e, w})
+			return ""
+		}
+		if inner.Sel.Name == "q" && sw.funcs[name] {
+			sw.out = append(sw.out, spoolCall{"Call:" + name, "", e, w})
+		}
+		return ""
+	}
 	recv, _ := sel.X.(*ast.Ident)
 	if recv == nil {
 		return ""
 	}
-	name := sel.Sel.Name
 	switch {
 	case recv.Name == "os":
 		switch name {
@@ -327,6 +344,9 @@ func spoolSkel(repo, out string) error {
 	for _, n := range spoolFuncs {
 		funcs[n] = true
 	}
+	for _, n := range spoolCallTargets {
+		funcs[n] = true
+	}
 	var b strings.Builder
 	b.WriteString("/- GENERATED by /verif/tools/extract spoolskel from internal/target/queue/queue.go — do not edit. -/\n")
 	b.WriteString("namespace MaddyVerif.Generated.SpoolSkel\n\n")
@@ -345,6 +365,35 @@ func spoolSkel(repo, out string) error {
 		sw := &spoolWalker{vars: map[string]ast.Expr{}, files: map[string]string{}, funcs: funcs}
 		sw.stmt(fd.Body, false, false)
 		fmt.Fprintf(&b, "def %s : List Call := [", name)
+		for i, c := range sw.out {
+			if i > 0 {
+				b.WriteString(",")
+			}
+			fmt.Fprintf(&b, "\n  ⟨%q, %q, %v, %v⟩", c.kind, c.arg, c.e, c.w)
+		}
+		b.WriteString("]\n\n")
+	}
+	for _, rc := range spoolCallers {
+		var fd *ast.FuncDecl
+		for _, d := range f.Decls {
+			x, ok := d.(*ast.FuncDecl)
+			if !ok || x.Name.Name != rc[1] || x.Recv == nil || len(x.Recv.List) != 1 {
+				continue
+			}
+			t := x.Recv.List[0].Type
+			if st, ok := t.(*ast.StarExpr); ok {
+				t = st.X
+			}
+			if id, ok := t.(*ast.Ident); ok && id.Name == rc[0] {
+				fd = x
+			}
+		}
+		if fd == nil {
+			return fmt.Errorf("method %s.%s not found in %s", rc[0], rc[1], path)
+		}
+		sw := &spoolWalker{vars: map[string]ast.Expr{}, files: map[string]string{}, funcs: funcs}
+		sw.stmt(fd.Body, false, false)
+		fmt.Fprintf(&b, "def %s_%s : List Call := [", rc[0], rc[1])
 		for i, c := range sw.out {
 			if i > 0 {
 				b.WriteString(",")
